@@ -27,18 +27,20 @@ type owner struct {
 }
 
 type world struct {
-	e      *env.Env
-	own    [3]*owner
-	serial int
+	e         *env.Env
+	own       [3]*owner
+	serial    int
 	lastFresh string
+	race      *raceDB
 }
 
 func newWorld() (*world, error) {
-	e, err := env.New(provs, nil)
+	w := &world{}
+	e, err := env.New(provs, func(d acme.DB) acme.DB { w.race = &raceDB{DB: d}; return w.race })
 	if err != nil {
 		return nil, err
 	}
-	w := &world{e: e}
+	w.e = e
 	kinds := []string{"es256", "rsa2048", "es384"}
 	pr := []string{"p0", "p0", "p1"}
 	for i := range w.own {
@@ -346,6 +348,10 @@ func (w *world) run(k *Case) (line, impl string) {
 		prot["url"] = env.URL(env.Path(provName, "new-order")) + "x"
 	case "nonstring":
 		prot["url"] = 7
+	case "case-id", "case-path", "case-scheme", "case-host":
+		// the request URL with the letter case of one part flipped: ids and provisioner names are
+		// case-sensitive, and the comparison in validateJWS is exact
+		prot["url"] = flipCase(reqURL, j.URL)
 	}
 	embed := func() {
 		var jk *jose.JSONWebKey
@@ -650,4 +656,40 @@ func provIndex(name string) int {
 		}
 	}
 	return 0
+}
+
+// flipCase returns u with the case of the letters of one part inverted:
+// case-scheme (https), case-host, case-path (everything after the host but the last element),
+// case-id (the last path element: an account/order/authz/certificate id or a fixed word).
+func flipCase(u, part string) string {
+	inv := func(s string) string {
+		b := []byte(s)
+		for i, ch := range b {
+			switch {
+			case 'a' <= ch && ch <= 'z':
+				b[i] = ch - 32
+			case 'A' <= ch && ch <= 'Z':
+				b[i] = ch + 32
+			}
+		}
+		return string(b)
+	}
+	const pre = "https://"
+	rest := strings.TrimPrefix(u, pre)
+	slash := strings.Index(rest, "/")
+	if slash < 0 {
+		return inv(u)
+	}
+	host, pth := rest[:slash], rest[slash:]
+	last := strings.LastIndex(pth, "/")
+	switch part {
+	case "case-scheme":
+		return "HTTPS://" + rest
+	case "case-host":
+		return pre + inv(host) + pth
+	case "case-path":
+		return pre + host + inv(pth[:last]) + pth[last:]
+	default:
+		return pre + host + pth[:last] + inv(pth[last:])
+	}
 }
